@@ -483,6 +483,30 @@ def gen_histories(ctx: Ctx, r, n_random, all_kind_pairs):
     return hs
 
 
+def exhaustive_histories(r):
+    """Thorough tier: ALL two-call histories over the band-edge resolutions 8, 9, 16, 17, 32, 33 x all 3 x 3 pairs of
+    models with the first image left in place, and with the image emptied between the calls for every resolution pair
+    and every second model (small frames of 6 voltages)."""
+    edges = (8, 9, 16, 17, 32, 33)
+    fam = ("simple", "sar", "noisy")
+    hs, c = [], 0
+    for emptied in (False, True):
+        for a in (fam if not emptied else ("simple",)):
+            for b in fam:
+                for b1 in edges:
+                    for b2 in edges:
+                        rv = HIST_RANGES[c % len(HIST_RANGES)]
+                        if rv[1] <= 0:
+                            rv = (0.0, 5.0)
+                        ka = (("sar0", "sarp")[c % 2]) if a == "noisy" else a
+                        kb = (("sarp", "sar0")[(c // 2) % 2]) if b == "noisy" else b
+                        hs.append(gen_history(r, [dict(bits=b1, range=rv, kind=ka, data_type=None),
+                                                  dict(bits=b2, range=rv, kind=kb, empty=emptied, data_type=None)],
+                                              n=6, noise_ops=False))
+                        c += 1
+    return hs
+
+
 def settings_at(c, i):
     """(bits, vmin, vmax, xs) in force just before operation i (the setters' own guards applied)."""
     bits, vmin, vmax, xs = c["bits"], c["vmin"], c["vmax"], c["xs"]
@@ -819,7 +843,11 @@ def run(ctx: Ctx):
     # histories of calls on one detector object (corpus first)
     hs = [c for c in load_corpus() if c["kind"] == "hist"]
     ctx.cov["corpus_histories"] = len(hs)
-    hs += gen_histories(ctx, ctx.rng("histories"), ctx.budget(16, 160), all_kind_pairs=not ctx.quick)
+    hs += gen_histories(ctx, ctx.rng("histories"), ctx.budget(16, 100), all_kind_pairs=not ctx.quick)
+    if not ctx.quick:
+        ex = exhaustive_histories(ctx.rng("histories_exh"))
+        ctx.cov["exhaustive_two_call_histories"] = len(ex)
+        hs += ex
     hmism, _, hpairs = run_histories(ctx, hs)
     ctx.cov["histories_validated_against_impl"] = len(hpairs)
     ctx.cov["history_disagreements_checked"] = len(hmism)
